@@ -28,6 +28,7 @@ type StrC struct {
 	Empty                                  bool
 	Equals, Contains, HasPrefix, HasSuffix string
 	ByteLen                                *IntC
+	CaseInsensitive                        bool
 }
 
 // TimeC: unix seconds, 0 = not set.
